@@ -93,6 +93,21 @@ fn mix_values(u: usize, thorough: bool) -> Vec<i64> {
             s.insert(x);
         }
     }
+    // magnitudes around the *absolute* range of dates counted from the epoch
+    // (-4,371,587 ..= 2,932,896 days), expressed in the unit: a difference may
+    // legitimately exceed them (up to the unit's limit), so an implementation
+    // that validates a delta against an absolute range fails exactly here
+    let around_epoch_range: &[i64] = match u {
+        0 => &[8_029, 8_030, 11_968, 11_969],
+        1 => &[96_359, 96_360, 143_624, 143_625],
+        2 => &[418_985, 418_986, 624_512, 624_513],
+        3 => &[2_932_896, 2_932_897, 4_371_587, 4_371_588, 7_304_476],
+        4 => &[70_389_504, 70_389_528, 104_918_088, 104_918_112],
+        _ => &[],
+    };
+    for &x in around_epoch_range {
+        s.insert(x);
+    }
     s.into_iter().filter(|&x| x >= 1 && x <= LIMITS[u]).collect()
 }
 
